@@ -8,13 +8,22 @@
       "file":bytes TabularDataFile wrote,"got":[[{t,s}]] cells a fresh TabularDataFile returned}
    TLC evaluates the requirement of IniCsv on the real bytes: IniOK(text, sets, w) (values and relative order of
    comments / untouched entries), the returned values against Expected, the specification's CSV reader on the
-   written file, and the rows read back against the rows written.                                                 *)
+   written file, and the rows read back against the rows written.
+   Growth events:
+     a.* - one event per call on an asl::IniFile object (harness/c18_common.h, ApiSession): a.new (file), a.open, a.set, a.get,
+           a.cur, a.asize, a.aget, a.write / a.writeTo / a.writeBad / a.close (with the bytes on disk afterwards), a.obs (the
+           const queries).  They are the actions of the object state machine of IniCsv (variable ast, ApiStep) on the *real*
+           bytes: every write must satisfy WriteOK relative to the text the object was opened on and the set() calls since
+           then; results and observations must be what ApiRet / ApiObs say in the state reached.
+     csvw - one table written by TabularDataFile with options (separator, decimal symbol, useQuotes, flushEvery, short rows,
+           ARFF) + the bytes written + snapshots of the file after each row + what a fresh object read back;
+     csvr - a file produced by "another tool" read by TabularDataFile (columns(), nextRow()/row(), data(), file[name]).     *)
 EXTENDS IniCsv, IOUtils
 
 T == ndJsonDeserialize(IOEnv.TRACE)
 VARIABLE l
 tvars == <<vars, l>>
-TInit == Init /\ l = 1
+TInit == Init /\ l = 1       \* (Part = "trace": every generator variable has its neutral value)
 
 IniEventOK(e) ==
     LET at == Assigns(e.text) \o e.sets IN
@@ -28,14 +37,107 @@ CsvEventOK(e) ==
     /\ CsvRows(e.file) = e.rows                \* what the real writer produced parses (specification's reader) to the rows written
     /\ e.got = e.rows                          \* what the real reader returned
 
+
+(* growth: a table written with options.  The file must be what CsvWOK / ArffOK say for the options; a snapshot of the file taken
+   after row r is a prefix of the final file and, when r is a multiple of flushEvery(n), holds all r rows; what a fresh object
+   read back is what the specification's reader (with inference) reads from those bytes, and - for the dialects the inference
+   recovers - the table that was written. *)
+ArffCols(e) == [j \in 1..Len(e.names) |-> [name |-> e.names[j], ty |-> IF j <= Len(e.types) THEN e.types[j] ELSE <<>>]]
+SnapOK(e, o, sn) == /\ IsPrefix(sn.file, e.file)
+                    /\ (IF e.flush > 0 /\ sn.r % e.flush = 0
+                        THEN (IF e.arff THEN ArffOK(sn.file, e.rel, ArffCols(e), SubSeq(e.rows, 1, sn.r), e.q)
+                              ELSE CsvFileRows(sn.file, o) = NormRows(SubSeq(e.rows, 1, sn.r)))
+                        ELSE TRUE)
+CsvWEventOK(e) ==
+    LET o == [sep |-> e.sep, dec |-> e.dec, q |-> e.q] IN
+    /\ (IF e.arff THEN ArffOK(e.file, e.rel, ArffCols(e), e.rows, e.q) ELSE CsvWOK(e.file, e.names, e.rows, o))
+    /\ {k \in 1..Len(e.snaps) : ~SnapOK(e, o, e.snaps[k])} = {}
+    /\ (IF e.readable THEN LET r == CsvRead(e.file, <<>>) IN
+                           /\ e.got = r.rows
+                           /\ r.rows = ReadBack(e.names, e.rows)
+                           /\ (r.named => e.gotnames = r.names)
+        ELSE TRUE)
+(* growth: a file of another tool read by the real reader: rows (nextRow()/row() and data()), column names and file[name] *)
+CsvREventOK(e) ==
+    IF ReadUnspec(e.file, e.types) THEN TRUE
+    ELSE LET r == CsvRead(e.file, e.types) IN
+         /\ DropEmpty(e.rows) = DropEmpty(r.rows)
+         /\ e.data = e.rows
+         /\ e.past
+         /\ (IF r.named THEN /\ e.names = r.names /\ e.ncols = Len(r.names)
+                             /\ {i \in 1..Len(e.rows) : e.byname[i] # ByName(e.names, e.rows[i])} = {}
+             ELSE TRUE)
+
+(* the IniFile object *)
+Pairs(vs) == {<<vs[i].name, vs[i].val>> : i \in {j \in 1..Len(vs) : ~(IF Len(vs[j].name) >= 2 THEN vs[j].name[1] = 45 /\ vs[j].name[2] = Slash ELSE FALSE)}}
+ValsOK(vs, o) == LET got == Pairs(vs)
+                     must == {<<o.vals[i].name, o.vals[i].val>> : i \in 1..Len(o.vals)}
+                 IN /\ must \subseteq got
+                    /\ (got \ must) \subseteq {<<n, <<>>>> : n \in ToSet(o.valsMay)}
+                    /\ Cardinality({p[1] : p \in got}) = Cardinality(got)                  \* one value per name
+ObsOK(e, a) ==
+    LET o == ApiObs(a, [i \in 1..Len(e.q) |-> [sec |-> e.q[i].sec, key |-> e.q[i].key]]) IN
+    /\ Len(o.q) = Len(e.q)
+    /\ {i \in 1..Len(e.q) : ~(/\ e.q[i].v = o.q[i].v
+                              /\ (o.q[i].has = "u" \/ e.q[i].has = o.q[i].has)
+                              /\ e.q[i].dflt \in ToSet(o.q[i].dflt))} = {}
+    /\ ToSet(o.secs) \subseteq ToSet(e.secs)
+    /\ ToSet(e.secs) \subseteq (ToSet(o.secs) \cup ToSet(o.secsMay))
+    /\ Cardinality(ToSet(e.secs)) = Len(e.secs)
+    /\ ValsOK(e.vals, o)
+    /\ ValsOK(e.vals2, o)
+\* the bytes a write left: unchanged when nothing was set, otherwise WriteOK relative to the text the object was opened on
+\* (nothing needs to be written when every set() left the value as the file has it - a new key without value included)
+Untouched(a, w, exists) == exists = a.exists /\ (a.exists => w = a.disk)
+NoNeed(a) == \A k \in KeysOf(a.sets) : Trim(Lookup(a.sets, k[1], k[2])) = Lookup(a.bmem, k[1], k[2])
+\* (a file that gives a key twice with two values: whether destroying the object alone rewrites it is not documented)
+DupConflict(as) == \E i \in 1..Len(as) : as[i].val # Lookup(as, as[i].sec, as[i].key)
+WroteOK(a, w, exists) == IF a.sets = <<>> THEN (IF Untouched(a, w, exists) THEN TRUE ELSE DupConflict(a.bmem) /\ exists /\ WriteOK(a.base, <<>>, w))
+                         ELSE IF Untouched(a, w, exists) /\ NoNeed(a) THEN TRUE
+                         ELSE exists /\ WriteOK(a.base, a.sets, w)
+D(e) == [bytes |-> e.w, exists |-> e.exists]
+None == [bytes |-> <<>>, exists |-> FALSE]
+TApi(e) ==
+    CASE e.op = "a.new"   -> ast' = ApiStart(e.text, e.exists)
+      [] e.op = "a.open"  -> LET m == [m |-> "open", sw |-> e.sw] IN
+                             ApiEnabled(ast, m) /\ e.ok = ast.exists /\ e.fname /\ ast' = ApiStep(ast, m, None)
+      [] e.op = "a.set"   -> LET m == [m |-> "set", sec |-> e.sec, key |-> e.key, val |-> e.val] IN
+                             ApiEnabled(ast, m) /\ ast' = ApiStep(ast, m, None)
+      [] e.op = "a.get"   -> LET m == [m |-> "get", sec |-> e.sec, key |-> e.key] IN
+                             ApiEnabled(ast, m) /\ e.r = ApiRet(ast, m) /\ ast' = ApiStep(ast, m, None)
+      [] e.op = "a.cur"   -> ast.open /\ ast' = ApiStep(ast, [m |-> "cur", sec |-> e.sec], None)
+      \* (arraysize(): the number the key "size" holds; what it returns for a value that is not a number is not documented)
+      [] e.op = "a.asize" -> LET m == [m |-> "asize", sec |-> e.sec]
+                                 v == Lookup(ApiMem(ast), e.sec, <<115, 105, 122, 101>>) IN
+                             /\ ast.open
+                             /\ (IF v = <<>> \/ (AllDigits(v) /\ Len(v) <= 9) THEN e.r = ApiRet(ast, m) ELSE TRUE)
+                             /\ ast' = ApiStep(ast, m, None)
+      [] e.op = "a.aget"  -> LET m == [m |-> "aget", field |-> e.field, idx |-> e.idx] IN
+                             ApiEnabled(ast, m) /\ e.r = ApiRet(ast, m) /\ ast' = ast
+      [] e.op = "a.write" -> ApiEnabled(ast, [m |-> "write"]) /\ WroteOK(ast, e.w, e.exists) /\ ast' = ApiStep(ast, [m |-> "write"], D(e))
+      [] e.op = "a.writeTo" -> /\ ApiEnabled(ast, [m |-> "writeTo"]) /\ (IF NoNeed(ast) /\ ~e.made THEN TRUE ELSE e.made /\ WriteOK(ast.base, ast.sets, e.w))
+                               /\ ast' = ApiStep(ast, [m |-> "writeTo"], None)
+      \* a write that cannot succeed reports nothing and leaves the object's own file alone
+      [] e.op = "a.writeBad" -> ast.open /\ e.exists = ast.exists /\ (ast.exists => e.w = ast.disk) /\ ast' = ApiStep(ast, [m |-> "writeBad"], None)
+      [] e.op = "a.close" -> /\ ast.open
+                             /\ (IF ast.sw THEN WroteOK(ast, e.w, e.exists) ELSE e.exists = ast.exists /\ (ast.exists => e.w = ast.disk))
+                             /\ ast' = ApiStep(ast, [m |-> "close"], D(e))
+      [] e.op = "a.obs"   -> ast.open /\ ObsOK(e, ast) /\ ast' = ast
+      [] OTHER -> FALSE
+
 TStep ==
   /\ l <= Len(T)
   /\ l' = l + 1
-  /\ UNCHANGED vars
+  /\ UNCHANGED <<itext, istyle, isets, crows, ccols, ibom, copt, ahist>>
   /\ LET e == T[l] IN
-     \/ e.op = "reset"
-     \/ e.op = "ini" /\ IniEventOK(e)
-     \/ e.op = "csv" /\ CsvEventOK(e)
+     IF e.op \in {"a.new", "a.open", "a.set", "a.get", "a.cur", "a.asize", "a.aget", "a.write", "a.writeTo", "a.writeBad", "a.close", "a.obs"}
+     THEN TApi(e)
+     ELSE /\ ast' = ast
+          /\ \/ e.op = "reset"
+             \/ e.op = "ini" /\ IniEventOK(e)
+             \/ e.op = "csv" /\ CsvEventOK(e)
+             \/ e.op = "csvw" /\ CsvWEventOK(e)
+             \/ e.op = "csvr" /\ CsvREventOK(e)
 
 TraceSpec == TInit /\ [][TStep]_tvars
 TraceAccepted == TLCGet("stats").diameter - 1 = Len(T)
